@@ -51,6 +51,8 @@ def roundtrip(pick, enc, hexbm, maxvar=None, cfgs=None, cfgname='packaged'):
             if e.kind == 'num':
                 require(isinstance(got, (int, SInt)) and not isinstance(got, bool), '%s is not a number' % e.key, key='C01/value', replay=rp)
                 require(s_eq(got, e.expect), '%s changed' % e.key, key='C01/value', replay=rp)
+            elif e.kind == 'dec':
+                require(type(got) is type(e.expect) and got == e.expect, '%s changed' % e.key, key='C01/value', replay=rp)
             elif e.kind == 'date':
                 require(got is e.expect, '%s changed' % e.key, key='C01/value', replay=rp)
             else:
@@ -83,6 +85,11 @@ def class_mixes():
         [3, 5, 10, 12, 31, 54, 62, 72, 95, 111, 123],
         [2, 14, 22, 33, 38, 42, 49, 73, 93, 94, 124, 125],
     ]
+
+
+GENERIC_DEC = {'8': {'field_type': 'FIXED', 'field_length': 12, 'field_python_type': 'decimal'},
+               '28': {'field_type': 'LLVAR', 'field_length': 9, 'field_python_type': 'decimal'},
+               '3': {'field_type': 'FIXED', 'field_length': 6}}
 
 
 GENERIC = {
@@ -125,4 +132,9 @@ def obligations(tier):
             gb = sorted(int(k) for k in cfg)
             obs.append(Ob('generic/%s/%s' % (name, enc), roundtrip(lambda gb=gb: list(gb), enc, False, cfgs=cfg), 600,
                           'caller-supplied configuration %s: %s' % (name, {k: (v['field_type'], v['field_length']) for k, v in cfg.items()}), _funcs))
+    import itertools as _it
+    subsets = [[8], [28], [8, 28], [3, 8, 28]]
+    obs.append(Ob('generic/g-decimal/latin_1', roundtrip(lambda: list(choose('subset', subsets)), 'latin_1', False, cfgs=GENERIC_DEC), 300,
+                  'caller-supplied configuration with decimal fields (FIXED 12 / LLVAR): concrete decimal values from a family incl. zero values; '
+                  'decimal arithmetic runs natively', _funcs))
     return obs
